@@ -181,6 +181,7 @@ func runC05(c *Ctx) {
 	ruleBulkFrame(c, "R05.g")
 	ruleReplyBufferLocal(c, "R05.h")
 	ruleRecycledObjectsReset(c, "R05.p")
+	ruleValueRejections(c, "R05.q")
 	// "on the connection the request arrived on"
 	ruleGoroutineOwnsItsIteration(c, "R05.i")
 	// SCAN MATCH hands the handler a compiled pattern: it is the client's glob only if the translation is faithful
